@@ -104,6 +104,11 @@ type lossFinding struct {
 }
 
 func errorLoss(c *Ctx, fn *ssa.Function, rtIface, fnIface *types.Interface) (tracked int, findings []lossFinding, complete bool) {
+	return errorLossOf(c, fn, func(in ssa.Instruction) (int, string, bool) { return evalLikeCall(in, rtIface, fnIface) })
+}
+
+// errorLossOf: the same for an arbitrary class of tracked calls.
+func errorLossOf(c *Ctx, fn *ssa.Function, track func(in ssa.Instruction) (int, string, bool)) (tracked int, findings []lossFinding, complete bool) {
 	type tr struct {
 		call *ssa.Call
 		errV ssa.Value
@@ -111,7 +116,7 @@ func errorLoss(c *Ctx, fn *ssa.Function, rtIface, fnIface *types.Interface) (tra
 	}
 	var calls []tr
 	allInstrs(fn, func(in ssa.Instruction) {
-		if idx, what, ok := evalLikeCall(in, rtIface, fnIface); ok {
+		if idx, what, ok := track(in); ok {
 			call := in.(*ssa.Call)
 			if ev := errValueOf(call, idx); ev != nil {
 				calls = append(calls, tr{call, ev, what})
@@ -192,7 +197,7 @@ func errorLoss(c *Ctx, fn *ssa.Function, rtIface, fnIface *types.Interface) (tra
 	}
 	sort.Ints(idxs)
 	for _, i := range idxs {
-		findings = append(findings, lossFinding{calls[i].call, calls[i].what, "the error of " + accessPath(calls[i].call.Call.Value) + "." + calls[i].what + "() " + bad[i]})
+		findings = append(findings, lossFinding{calls[i].call, calls[i].what, "the error of " + errCallLabel(calls[i].call, calls[i].what) + " " + bad[i]})
 	}
 	return
 }
@@ -260,6 +265,7 @@ func checkC04(c *Ctx, r *Result, tier string) {
 
 	checkErrorLoss(c, r, "R04a")
 	c04Try(c, r)
+	c04Loop(c, r)
 }
 
 // c04Try: the Eval method which tests a child's Name against "finally".
@@ -453,9 +459,59 @@ func c04Try(c *Ctx, r *Result) {
 			ungated[in] = true
 		}
 	}
+	// R04g: first matching clause only — when a dispatch call is (re-)executed, no earlier
+	// execution of a dispatch call on this path has reported a match
+	redispatch := map[ssa.Instruction]bool{}
+	matchFlag := func(d ssa.Instruction) *ssa.Extract {
+		call, ok := d.(*ssa.Call)
+		if !ok {
+			return nil
+		}
+		tup, ok := call.Type().(*types.Tuple)
+		if !ok || tup.Len() < 1 || tup.At(0).Type().String() != "bool" {
+			return nil
+		}
+		for _, ref := range *call.Referrers() {
+			if e, ok := ref.(*ssa.Extract); ok && e.Index == 0 {
+				return e
+			}
+		}
+		return nil
+	}
+	nMatchers := 0
+	for _, d := range dispatch {
+		if matchFlag(d) != nil {
+			nMatchers++
+		}
+	}
+	po.Pre = func(st *PState, in ssa.Instruction) {
+		if !isDispatch[in] {
+			return
+		}
+		for _, d := range dispatch {
+			if e := matchFlag(d); e != nil && st.Get(e, po) == AvNonNil {
+				redispatch[in] = true
+			}
+		}
+	}
 	if !ExplorePaths(tryEval, po) {
 		r.Undecide("R04d: path exploration of %s exceeded its state bound", key)
 	}
+	for i, d := range dispatch {
+		if matchFlag(d) == nil {
+			continue
+		}
+		site := fmt.Sprintf("%s#first-match#%d", key, i)
+		p := c.Pos(c.InstrPos(d))
+		if redispatch[d] {
+			r.Instance("R04g", site, p, "finding", "dispatch continues after a match", true)
+			r.Report(Finding{Rule: "R04g", Site: site, Pos: p,
+				Msg: key + ": an except clause can be tried on a path where an earlier clause already matched and handled the error — the error is no longer handled by the first matching clause only (a second handler runs and replaces the first handler's outcome)"})
+		} else {
+			r.Instance("R04g", site, p, "ok", "on no path is a clause tried after an earlier clause reported a match", true)
+		}
+	}
+	r.Floor("R04g", nMatchers, 1)
 	for i, d := range dispatch {
 		site := fmt.Sprintf("%s#except-dispatch#%d", key, i)
 		p := c.Pos(c.InstrPos(d))
@@ -541,4 +597,171 @@ func c04Try(c *Ctx, r *Result) {
 		})
 	}
 	r.Floor("R04e", nBind, 2)
+}
+
+// ---- R04f: a loop execution starts with no iterator state -------------------------------------
+
+// c04Loop: iterator functions (range) keep their position in the instance-state map under their
+// instance id, and decide between "start" and "continue" by looking it up. A loop execution
+// therefore has to hand its guard, iterator and body an instance state allocated for this
+// execution; otherwise a loop left early (break, error, return) resumes where it stopped the
+// next time the same loop statement runs.
+func c04Loop(c *Ctx, r *Result) {
+	rtIface := c.Interface("parser", "Runtime")
+	pt, err := ExtractProviders(c)
+	if err != nil || rtIface == nil {
+		r.Undecide("R04f: %v", err)
+		return
+	}
+	loopT := pt.Kind2Type["loop"]
+	if loopT == nil {
+		r.Undecide("R04f: no runtime for node kind loop")
+		return
+	}
+	eval := c.Method("interpreter", loopT.Obj().Name(), "Eval")
+	if eval == nil {
+		r.Undecide("R04f: Eval of %s not found", loopT.Obj().Name())
+		return
+	}
+	// the function set: Eval, same-receiver helpers it reaches, and their closures
+	set := map[*ssa.Function]bool{}
+	var order []*ssa.Function
+	callers := map[*ssa.Function][]ssa.CallInstruction{}
+	closures := map[*ssa.Function][]*ssa.MakeClosure{}
+	var add func(fn *ssa.Function)
+	add = func(fn *ssa.Function) {
+		if set[fn] {
+			return
+		}
+		set[fn] = true
+		order = append(order, fn)
+		allInstrs(fn, func(in ssa.Instruction) {
+			switch x := in.(type) {
+			case *ssa.MakeClosure:
+				if cf, ok := x.Fn.(*ssa.Function); ok {
+					closures[cf] = append(closures[cf], x)
+					add(cf)
+				}
+			case ssa.CallInstruction:
+				if f := x.Common().StaticCallee(); f != nil && c.modFuncSet[f] && f.Signature.Recv() != nil &&
+					namedOf(f.Signature.Recv().Type()) == loopT {
+					callers[f] = append(callers[f], x)
+					add(f)
+				}
+			}
+		})
+	}
+	add(eval)
+	memo := map[ssa.Value]int{}
+	var fresh func(v ssa.Value) bool
+	fresh = func(v ssa.Value) bool {
+		v = unspill(v)
+		switch memo[v] {
+		case 1, 2:
+			return true
+		case 3:
+			return false
+		}
+		memo[v] = 1
+		ok := false
+		switch x := v.(type) {
+		case *ssa.MakeMap:
+			ok = x.Parent() == eval || set[x.Parent()]
+		case *ssa.Phi:
+			ok = true
+			for _, e := range x.Edges {
+				ok = ok && fresh(e)
+			}
+		case *ssa.Parameter:
+			fn := x.Parent()
+			idx := -1
+			for i, p := range fn.Params {
+				if p == x {
+					idx = i
+				}
+			}
+			cs := callers[fn]
+			ok = fn != eval && len(cs) > 0 && idx >= 0
+			for _, ci := range cs {
+				args := callArgs(ci.Common())
+				ok = ok && idx < len(args) && fresh(args[idx])
+			}
+		case *ssa.UnOp:
+			switch a := x.X.(type) {
+			case *ssa.Alloc:
+				srcs := cellSources(a)
+				ok = len(srcs) > 0
+				for _, s := range srcs {
+					ok = ok && fresh(s)
+				}
+			case *ssa.FreeVar:
+				fn := a.Parent()
+				idx := -1
+				for i, fv := range fn.FreeVars {
+					if fv == a {
+						idx = i
+					}
+				}
+				mcs := closures[fn]
+				ok = len(mcs) > 0 && idx >= 0
+				for _, mc := range mcs {
+					cell, isAlloc := mc.Bindings[idx].(*ssa.Alloc)
+					if !isAlloc {
+						ok = false
+						break
+					}
+					srcs := cellSources(cell)
+					ok = ok && len(srcs) > 0
+					for _, s := range srcs {
+						ok = ok && fresh(s)
+					}
+				}
+			}
+		}
+		if ok {
+			memo[v] = 2
+		} else {
+			memo[v] = 3
+		}
+		return ok
+	}
+	n := 0
+	ord := newOrdinals()
+	for _, fn := range order {
+		key := c.FuncKey(fn)
+		allInstrs(fn, func(in ssa.Instruction) {
+			ci, ok := in.(ssa.CallInstruction)
+			if !ok || !ci.Common().IsInvoke() || ci.Common().Method.Name() != "Eval" || !types.Identical(ci.Common().Value.Type().Underlying(), rtIface) {
+				return
+			}
+			args := ci.Common().Args
+			if len(args) < 2 {
+				return
+			}
+			n++
+			site := ord.key(key, "loop-eval", accessPath(ci.Common().Value))
+			pos := c.Pos(c.InstrPos(in))
+			if fresh(args[1]) {
+				r.Instance("R04f", site, pos, "ok", "the instance state handed to this evaluation is allocated by the loop execution", true)
+				return
+			}
+			r.Instance("R04f", site, pos, "finding", "instance state not allocated by the loop execution: "+accessPath(args[1]), true)
+			r.Report(Finding{Rule: "R04f", Site: site, Pos: pos,
+				Msg: key + ": the loop evaluates its guard, iterator or body with an instance state that outlives this loop execution (" + accessPath(args[1]) + "): the position an iterator function keeps there survives a loop that is left early, so the next execution of the same loop resumes instead of restarting"})
+		})
+	}
+	r.Floor("R04f", n, 4)
+}
+
+func errCallLabel(call *ssa.Call, what string) string {
+	if call.Call.IsInvoke() {
+		return accessPath(call.Call.Value) + "." + what + "()"
+	}
+	if f := call.Call.StaticCallee(); f != nil && f.Signature.Recv() == nil {
+		return what + "()"
+	}
+	if f := call.Call.StaticCallee(); f != nil && len(call.Call.Args) > 0 {
+		return accessPath(call.Call.Args[0]) + "." + what + "()"
+	}
+	return accessPath(call.Call.Value) + "()"
 }
